@@ -339,7 +339,8 @@ theorem readRaw_staged (fields : List Field) (recs : List (List Val)) (lines : L
     readRaw r = .ok (recs.map (fun vals => (cellsOf fields vals).map (fun s => normEmpty (some s)))) := by
   unfold readRaw
   rw [hr]
-  show lines.mapM decodeRaw = _
+  show (splitLines (toText lines)).mapM decodeRaw = _
+  rw [splitLines_toText lines (stage_no_nl fields recs lines hst)]
   clear hr
   induction recs generalizing lines with
   | nil =>
